@@ -112,20 +112,9 @@ def main(out):
     o.append("  unfold is_success, successful. intros H. apply andb_prop in H. destruct H as [Hc H].")
     o.append("  destruct (run_gen c sc) as [[img [|d l]]|e]; try discriminate. exists img. split; [exact Hc|reflexivity].")
     o.append("Qed.")
-    o.append("Definition is_success_nonneg (c : config) (sc : list draw) : bool :=")
-    o.append("  cfg_ok c && match run_gen c sc with OK (img, []) => forallb (fun m => (0 <=? m_body m)%Z) (im_methods img) | _ => false end.")
-    o.append("Lemma is_success_nonneg_ok c sc : is_success_nonneg c sc = true ->")
-    o.append("  exists img, successful c sc img /\\ Forall (fun m => (0 <= m_body m)%Z) (im_methods img).")
-    o.append("Proof.")
-    o.append("  unfold is_success_nonneg, successful. intros H. apply andb_prop in H. destruct H as [Hc H].")
-    o.append("  destruct (run_gen c sc) as [[img [|d l]]|e]; try discriminate. exists img. split; [split; [exact Hc|reflexivity]|].")
-    o.append("  apply Forall_forall. intros m Hm. rewrite forallb_forall in H. apply Z.leb_le. apply H. exact Hm.")
-    o.append("Qed.")
     for v in G.VARIANTS:
         o.append("Example witness_%s : exists img, successful wcfg_%s wscript_%s img." % (v, v, v))
         o.append("Proof. apply is_success_successful. vm_compute. reflexivity. Qed.")
-        o.append("Example witness_nonneg_%s : exists img, successful wcfg_%s wscript_%s img /\\ Forall (fun m => (0 <= m_body m)%%Z) (im_methods img)." % (v, v, v))
-        o.append("Proof. apply is_success_nonneg_ok. vm_compute. reflexivity. Qed.")
     with open(out, "w") as f:
         f.write("\n".join(o) + "\n")
     print("witness scripts:", [len(G.translate_log(r["log"])) for r in res])
